@@ -109,6 +109,24 @@ def run(v, O):
     out.append(('direct and via the plain unit agree', O.eq(direct, via, 1e-9)))
     return out
 '''
+QMIS_SRC = '''
+def run(v, O):
+    # a quantity target k w: a refused conversion leaves the source as it was, a reciprocal one divides after taking the reciprocal
+    out = []
+    for label, mk in (('Quantity(k, w)', lambda: Quantity(v.k, v.w)), ('k * Unit(w)', lambda: v.k * Unit(v.w))):
+        q = Quantity(v.x, v.u)
+        units0 = q.units()
+        if v.recip:
+            r = q.to(mk())
+            out.append((f'to({label}), reciprocal dimension: value = 1 / (x F(u)) / (k F(w))', O.eq(r.value() * v.k * v.x * v.fu * v.fw, 1.0, 1e-9)))
+            out.append((f'to({label}), reciprocal dimension: units', O.same(r.units(), Quantity(1, v.w).units())))
+        else:
+            out.append((f'to({label}) refused', O.raises(lambda: q.to(mk()))))
+            out.append((f'to({label}) refused: value unchanged', O.eq(q.value(), v.x)))
+            out.append((f'to({label}) refused: units unchanged', O.same(q.units(), units0)))
+            out.append((f'to({label}) refused: a linear conversion afterwards', O.eq(q.value(v.u2), v.x * v.r2, 1e-9)))
+    return out
+'''
 AFTER_SRC = '''
 def run(v, O):
     # a conversion that is refused, or a reciprocal one, must not influence the conversions that follow on the same object
@@ -222,6 +240,14 @@ def scenarios(tier, seed):
         ruw = unitkit.ref_parse(u).value() / unitkit.ref_parse(w).value()
         S.append(Scenario(f'qtarget/{u}->{w}', QTARGET_SRC, {'x': 'real', 'k': 'real'}, ['v.k > 0'], consts={'u': u, 'w': w, 'ruw': ruw}, preamble=PRE + 'from scinumtools.units import Unit\n',
                           what=f'{u} converted to a quantity target k {w}', samples=2))
+    for u, w, u2, recip in (('km', 's', 'm', False), ('J', 'min', 'erg', False), ('kg', 'm/s', 'g', False), ('m', 'm2', 'cm', False), ('Hz', 's', None, True), ('kHz', 'ms', None, True), ('s', 'kHz', None, True),
+                            ('cm-1', 'um', None, True), ('Ohm', 'mS', None, True), ('', 'm', None, False)):
+        if u == '':
+            continue
+        fu, fw = unitkit.ref_parse(u).value(), unitkit.ref_parse(w).value()
+        r2 = (fu / unitkit.ref_parse(u2).value()) if u2 else None
+        S.append(Scenario(f'qtarget-other-dimension/{u}->{w}', QMIS_SRC, {'x': 'real', 'k': 'real'}, ['v.k > 0', 'v.x > 0'], consts={'u': u, 'w': w, 'u2': u2, 'recip': recip, 'fu': fu, 'fw': fw, 'r2': r2},
+                          preamble=PRE + 'from scinumtools.units import Unit\n', what=f'{u} converted to a quantity target k {w} of {"reciprocal" if recip else "another"} dimension', samples=2))
     for u, w, bad, recip in (('km', 'm', 's', None), ('kHz', 'Hz', 'm', 'ms'), ('g/cm3', 'kg/m3', 'kW*h', None), ('cm-1', 'm-1', 'kg', 'um'), ('Ohm', 'kOhm', None, 'S'), ('J', 'erg', 'K', None),
                               ('s', 'ms', None, 'Hz'), ('km/h', 'm/s', 'm', None)):
         ruw = unitkit.ref_parse(u).value() / unitkit.ref_parse(w).value()
@@ -243,4 +269,4 @@ def tasks(tier, seed):
 def run_task(task):
     S = scenarios(task['tier'], task['seed'])
     i, k = task['slice']
-    return run_scenarios(S[i::k], unitkit.units_patches, timeout_ms=20000, seed=task['seed'])
+    return run_scenarios(S[i::k], unitkit.units_patches, timeout_ms=20000, seed=task['seed'], div_zero='fork')
